@@ -536,7 +536,8 @@ def ev_listcomp(eng, e, st):
             continue
         items = seq_items(eng, seq, st1)
         if items is None:
-            raise OutOfSubset('comprehension over symbolic-length sequence')
+            yield from symbolic_map(eng, e, g, seq, st1)
+            continue
 
         def rec(i, acc, st):
             if i == len(items):
@@ -566,6 +567,50 @@ def ev_listcomp(eng, e, st):
                             else:
                                 yield from rec(i + 1, acc + [v], st4)
         yield from rec(0, [], st1)
+
+
+def symbolic_map(eng, e, g, seq, st):
+    """[elt for x in seq] over a sequence of symbolic length n, without filters, when elt evaluated at a symbolic
+    position is one pure value (single path, no exception, heap unchanged): the result is the list k -> elt[x := seq[k]]"""
+    from . import npmodel
+    if g.ifs:
+        raise OutOfSubset('filtered comprehension over symbolic-length sequence')
+    a = npmodel.arr_of(eng, st, seq)
+    if a is None:
+        raise OutOfSubset('comprehension over symbolic-length sequence')
+    n = a.shape[0]
+    i = z3.Int(fresh_name('ci'))
+    st1 = st.fork()
+    st1.assume(and_(0 <= i, i < to_z3(n)))
+    if a.ndim == 1:
+        item = a.at(i)
+    else:
+        item = new_ref(st1, ArrV(tuple(a.shape[1:]), lambda *r, a=a, i=i: a.at(i, *r), a.dtype))
+    heap_before = dict(st1.heap)
+    outs = []
+    for st2, _ in eng.assign(g.target, item, st1):
+        for v, st3 in eng.ev(e.elt, st2):
+            outs.append((v, st3))
+    if len(outs) != 1 or isinstance(outs[0][0], Raised):
+        raise OutOfSubset('comprehension over symbolic-length sequence whose element is not a single pure value')
+    v = outs[0][0]
+    if any(outs[0][1].heap.get(oid) is not obj for oid, obj in heap_before.items()):
+        raise OutOfSubset('comprehension over symbolic-length sequence whose element expression writes to the heap')
+
+    def plain(x):
+        return is_z3(x) or isinstance(x, (int, float, bool)) or (isinstance(x, tuple) and all(plain(y) for y in x))
+    if not plain(v):
+        raise OutOfSubset('comprehension over symbolic-length sequence with non-scalar elements')
+
+    def inst(x, k):
+        if isinstance(x, tuple):
+            return tuple(inst(y, k) for y in x)
+        return z3.substitute(x, (i, to_z3(k))) if is_z3(x) else x
+    if isinstance(v, tuple):
+        elem = 'tuple'
+    else:
+        elem = 'bool' if is_bool_like(v) else 'int' if is_int_like(v) else 'real'
+    yield new_ref(st, SymListV(n, lambda k, v=v: inst(v, k), elem)), st
 
 
 # ----------------------------------------------------------------------------- spec vocabulary
